@@ -67,6 +67,18 @@ BUILT = {
         note='Trusted: TLC, numpy. Bounded: pupil axes 4..6 (quick) / 3..8, small rational menus; where the output spans more than one period the position '
              'is not checked. Known finding (not repaired): Wavefront.focus on non-square arrays reports one dx (known_findings.jsonl).',
         technique='TLA+ spec (Optics.tla, exact rational physics + cyclotomic kernel test) checked by TLC; emitted configurations replayed into Wavefront / fixed-sampling routes'),
+    'C12': dict(
+        spec='Interferogram.tla, InterferogramTrace.tla',
+        text='Interferogram.tla makes every public method and coordinate property an action over (shape, dx, invalid set, Cartesian cache, polar cache) '
+             'with each mutator\'s effect on each cache explicit. Without the history variable the state space is finite, so TLC checks Coherent, '
+             'ValidityPreserved, CropKeepsValid and CropTight over every history of any length; the pinned tree\'s missing invalidations are kept as a '
+             'variant that must violate Coherent. Binding goes through one path in both directions: TLC-generated operation sequences (exhaustive to a '
+             'depth, simulate walks) and seeded random programs are executed on a real Interferogram, a recorder logs after every public call what a user '
+             'can observe (shape, dx, NaN set, returned grid descriptor, polar-consistency, the call\'s numerical promise), and TLC validates every '
+             'recorded execution against InterferogramTrace.tla with the caches hidden.',
+        note='Trusted: TLC, the recorder (public API only), numpy. Bounded: maps up to 4x4 (all-histories model, quick) / 4x5, programs on maps up to 9x9; '
+             'filter specified on NaN-free maps only; idempotence of tilt/power removal asserted only when the fitted modes are independent on the valid samples.',
+        technique='TLA+ history-machine spec (Interferogram.tla) model-checked over all histories; recorded executions of the real class validated by TLC against InterferogramTrace.tla'),
 }
 
 NOT_BUILT_REASON = 'not built yet in this round (specification planned in DESIGN.md section 4; never decided by another technique)'
